@@ -82,6 +82,22 @@ class SymSlice:
         return "SymSlice(%s, len=%s)" % (fmt(self.content), fmt(self.len.e))
 
 
+class RawSlice:
+    """&mut [u8] made by slice::from_raw_parts_mut over untracked memory: the only thing the models let it do is receive a
+    copy_from_slice (= a raw copy to `ptr`); every other use fails closed."""
+    __slots__ = ("ptr", "len")
+
+    def __init__(self, ptr, length):
+        self.ptr = ptr
+        self.len = length
+
+    def __deepcopy__(self, memo):
+        return self
+
+    def __repr__(self):
+        return "RawSlice(%s, len=%s)" % (fmt(self.ptr.e, 3), fmt(self.len.e))
+
+
 class Adt:
     __slots__ = ("path", "variant", "vname", "fields", "fnames")
 
@@ -1378,6 +1394,8 @@ class Machine:
             return self.read_place(st, fr, rv["place"])
         if k in ("ref", "rawptr"):
             place = rv["place"]
+            if len(place["p"]) == 1 and place["p"][0]["k"] == "deref" and isinstance(fr.locals[place["l"]].val, RawSlice):
+                return fr.locals[place["l"]].val          # reborrow of a raw slice: the same window
             lv = self.lv(st, fr, place)
             if lv.slice is not None:
                 s = lv.slice
